@@ -7,7 +7,7 @@ from engine.cond import CondCtx, satisfiable
 from engine.cells import Explorer, Iv, Const, TOP
 from engine.defuse import defuse_of, targets_of
 from engine.fold import UNKNOWN
-from .common import calls_named, package_calls, stmt_effects, node_lits, is_drop_only, enclosing_trys, resolve_arg
+from .common import calls_named, package_calls, stmt_effects, node_lits, is_drop_only, enclosing_trys, resolve_arg, before
 
 EXPLANATION = (
     "Static rules over BitField.insert, ConnectionBase._recv_datagram/_recv_message, RetrySender.__call__, "
@@ -258,7 +258,7 @@ def r3(ctx):
             if okf:
                 loop = [p for p in _parents(fill[0], snd.node) if isinstance(p, ast.For)]
                 sts = [c for c in calls_named(snd, "_send_type") if loop and any(p is loop[0] for p in _parents(c, snd.node))]
-                okf = len(loop) >= 1 and len(sts) == 1 and sts[0].lineno < fill[0].lineno
+                okf = len(loop) >= 1 and len(sts) == 1 and before(snd, sts[0], fill[0])
             ctx.check(okf, "C04.R3", snd, "send() records self.seq_message of every fragment, in order", "the stored numbers are the numbers first used",
                       witness=[norm(c) for c in fill])
 
